@@ -75,8 +75,15 @@ static int h_sigs[8], h_nsigs;
 static double
 h_next_wake(double now, double due, int ioready)
 {
-	(void)due, (void)ioready;
-	h_time = now + 1.0;
+	(void)ioready;
+	/* overdue watchers: poll returns at once */
+	h_time = due <= now ? now + 0.001 : now + 1.0;
+	return h_time;
+}
+
+static double
+h_clock(void)
+{
 	return h_time;
 }
 
@@ -128,6 +135,7 @@ fresh_loop(void)
 		.next_wake = h_next_wake, .io_ready = h_io_ready,
 		.reap = h_reap, .next_signal = h_next_signal,
 		.io_perm = h_io_perm, .contract = h_contract,
+		.clock = h_clock,
 	};
 	h_npids = h_nsigs = 0;
 	evm_reset(h_time);
@@ -153,6 +161,13 @@ send_sig(int s)
 static void
 settle(void)
 {
+}
+
+static void
+busy(double d)
+{
+	/* a callback that takes D seconds */
+	h_time = evm_now() + d;
 }
 
 #else  /* real libev */
@@ -204,6 +219,12 @@ settle(void)
 	/* let the monotonic clock advance a little */
 	usleep(2000);
 }
+
+static void
+busy(double d)
+{
+	usleep((useconds_t)(d * 1e6));
+}
 #endif	/* CONF_MODEL */
 
 
@@ -233,6 +254,7 @@ struct nm_signal {
 };
 
 static struct nm_periodic *victim;
+static int res_unordered;
 static int do_brk;
 static struct nm_periodic late;
 static double late_now, late_evnow;
@@ -248,7 +270,12 @@ p_res(ev_periodic *w, ev_tstamp now)
 		return now - p->first;
 	}
 	snprintf(b, sizeof(b), "res(%s)", p->nm);
-	tr(b);
+	if (res_unordered) {
+		/* libev walks its heap array: no order to speak of */
+		tr_io(b);
+	} else {
+		tr(b);
+	}
 	switch (p->mode) {
 	case 1:
 		/* exactly now, once */
@@ -285,6 +312,11 @@ p_cb(struct ev_loop *l, ev_periodic *w, int r)
 	}
 	if (do_brk && p->mode == 4) {
 		ev_break(l, EVBREAK_ALL);
+	}
+	if (p->mode == 5) {
+		/* what echsd does before it spawns an executor */
+		ev_loop_fork(l);
+		busy(0.1);
 	}
 }
 
@@ -495,6 +527,33 @@ scn_break(void)
 }
 
 static void
+scn_loop_fork(void)
+{
+/* PA's callback calls ev_loop_fork() and takes 100 ms, PB falls due in the
+ * meantime.  The next iteration begins by rescheduling all periodics with
+ * the current time (PB's expiry is never delivered) and ends with doing so
+ * once more, after all other callbacks. */
+	struct ev_loop *l = fresh_loop();
+	struct nm_periodic pa, pb, pc;
+	struct nm_timer t1;
+
+	mk_periodic(l, &pa, "PA", 1.0, 5);
+	mk_periodic(l, &pb, "PB", -0.05, 0);
+	res_unordered = 1;
+	settle();
+	ev_run(l, EVRUN_ONCE);
+	tr("|");
+	/* PC is due in the second iteration; so is T1 */
+	mk_periodic(l, &pc, "PC", 1.0, 0);
+	mk_timer(l, &t1, "T1", -1.0);
+	ev_run(l, EVRUN_ONCE | EVRUN_NOWAIT);
+	tr("|");
+	ev_run(l, EVRUN_ONCE | EVRUN_NOWAIT);
+	res_unordered = 0;
+	endscn("loop-fork");
+}
+
+static void
 scn_start_in_cb(void)
 {
 	struct ev_loop *l = fresh_loop();
@@ -568,6 +627,7 @@ main(void)
 	scn_child_stops_periodic();
 	scn_break();
 	scn_start_in_cb();
+	scn_loop_fork();
 	scn_unwatched_child();
 	scn_past();
 	return 0;
